@@ -160,13 +160,25 @@ def check_then_insert(run, f, det):
     some_arm = _tracked_arm(det)
     if run.require(len(sends) == 1 and some_arm is not None, "O14.4", "send-and-tracked-arm", "cannot find the mailbox send / the tracked arm in ask", "found"):
         r = cfg.reachable_from(some_arm, avoid={ins})
-        run.require(sends[0] not in r, "O14.4", "edge-recorded-before-send", "from actor context the message can be sent without the edge having been checked and recorded",
-                    "on the tracked arm every path to the send passes the insert", loc=det.loc(sends[0]))
+        # the decision point "is there a task-local identity" must itself precede the send on every path
+        run.require(sends[0] not in r and _lookup_dominates(det, sends[0]), "O14.4", "edge-recorded-before-send",
+                    "the message can be sent (and the asker can block in a full mailbox) before the edge has been checked and recorded: the wait-for check does not precede the mailbox send on every path",
+                    "the task-local lookup dominates the send and, on the tracked arm, every path to the send passes the insert", loc=det.loc(sends[0]))
         run.require(cfg.dominates(hp, ins), "O14.4", "check-before-insert", "the edge is inserted without the cycle check", "has_path dominates the insert")
 
 
 def _strip(t):
     return strip_wrappers(t)
+
+
+def _lookup_dominates(det, send_bb):
+    """The task-local lookup (try_with) that decides whether the ask is tracked dominates the send."""
+    for k in live_calls(det.body):
+        fn = fn_of(k)
+        if fn.get("name") == "try_with" and "LocalKey" in (fn.get("def") or ""):
+            if det.cfg.dominates(k.idx, send_bb):
+                return True
+    return False
 
 
 def _tracked_arm(det):
@@ -242,7 +254,7 @@ def direction(run, f, det):
     pos_caller = [i for i, x in enumerate(a) if x == caller_id]
     if not run.require(len(pos_callee) == 1 and len(pos_caller) == 1, "O14.5", "has_path-gets-both-ids", "has_path is called with (%s)" % ", ".join(show(x) for x in a), "has_path(graph, callee.id, caller.id) in some order"):
         return
-    hb = f.body("has_path")
+    hb = f.body(det.hp_def)
     if not run.require(hb is not None, "O14.5", "has_path-body", "has_path body not found", "found"):
         return
     run.count_body(hb)
@@ -274,7 +286,7 @@ def direction(run, f, det):
     for blk in b.blocks:
         if blk.term["k"] == "switch":
             s = strip_wrappers(tr.norm(tr.operand(blk.term["discr"])))
-            if s == ("call", hp, "has_path"):
+            if s == ("call", hp, det.hp_def):
                 t = blk.term
                 true_t = [tgt for v, tgt in t["arms"] if int(v) != 0] or [t["otherwise"]]
                 if all(int(v) == 0 for v, _ in t["arms"]):
